@@ -329,3 +329,12 @@ Theorem C06_code_uniform_tournament_crossover : forall ps fitness rank ds, valid
   py_uniform_tournament_crossover ps fitness rank ds = uniform_tournament_crossover ps fitness rank ds.
 Proof. exact code_uniform_tournament_crossover. Qed.
 Print Assumptions C06_code_uniform_tournament_crossover.
+
+(* SHAGA._get_new_individ_g, translated on every run as a method: second parent by a tournament of two over the raw fitness,
+   binomial crossover with the individual, flip mutation at the individual's own rate *)
+From TF Require Import CodeEqNewIndivid.
+Theorem C06_code_SHAGA_get_new_individ_g : forall fitness pop x MR CR ds,
+  valid_draws ds -> (2 <= length fitness)%nat ->
+  py_SHAGA_get_new_individ_g fitness pop x MR CR ds = shaga_new_individ pop fitness x MR CR ds.
+Proof. exact code_SHAGA_get_new_individ_g. Qed.
+Print Assumptions C06_code_SHAGA_get_new_individ_g.
